@@ -145,7 +145,7 @@ PROPS = {
         "lean_modules": ["SqlizeModel.Props.C03"],
         "theorems": ["Sqlize.C03.unchanged_prints_nothing", "Sqlize.C03.same_options_unchanged", "Sqlize.migrate_quiet",
                      "Sqlize.C03.equal_content_empty", "Sqlize.C03.self_diff_empty", "Sqlize.C03.same_script_empty", "Sqlize.C03.equal_schemas_from_scripts",
-                     "Sqlize.hasChangedOptions_of_perm", "Sqlize.ReaderMysql.step_plain", "Sqlize.table_same", "Sqlize.Table.diff_same", "Sqlize.Migration.diff_same"],
+                     "Sqlize.hasChangedOptions_of_perm", "Sqlize.ReaderMysql.step_plain", "Sqlize.table_same", "Sqlize.Table.diff_same", "Sqlize.Migration.diff_same", "Sqlize.C03.schema_on_reference_engine", "Sqlize.C03.equal_table_never_justified", "Sqlize.schema_c03", "Sqlize.dbEquiv_of_equiv"],
         "suites": [{"name": "pair"}, {"name": "struct", "kind": "struct"}],
         "corr_points": ["load-old", "load-new", "state-old", "state-new", "Diff", "state-diff", "StringUp", "StringDown", "StringUp-2nd"],
         "rule": PAIR_RULE,
@@ -157,7 +157,10 @@ PROPS = {
                        "spelling free) returns and leaves nothing to print in either direction (Sqlize.C03.equal_content_empty, self_diff_empty). "
                        "Two different scripts with equivalent reference schemas (no inline PRIMARY KEY option, table-level keys covered; column / statement / option order, "
                        "ALTER histories and index-type spelling free) load into such models: empty migration in both directions "
-                       "(Sqlize.C03.equal_schemas_from_scripts). With an inline PRIMARY KEY (two representations of a key: recorded finding) that is decided "
+                       "(Sqlize.C03.equal_schemas_from_scripts). Both clauses as the executable predicate: in the scope of the whole-schema theorems of C01 and C02 "
+                       "Spec.c03 returns ok on the printed migrations (schema_on_reference_engine) - equal schemas give two empty migrations, and otherwise no statement targets a table that is "
+                       "equivalent on both sides, since every printed statement is justified by a difference and a statement about an equivalent table never is (equal_table_never_justified). "
+                       "With an inline PRIMARY KEY (two representations of a key: recorded finding), foreign keys and COMMENT options that is decided "
                        "by correspondence + Spec.c03 on the Go output.",
     },
     "C13": {
